@@ -18,7 +18,7 @@ FINDINGS = [
  # ---------------------------------------------------------------- known
  K("C11", "C11 kzg.MpcSetup fresh setup WriteTo/ReadFrom", "a never-contributed kzg.MpcSetup does not round-trip: WriteTo writes a nil challenge as 0 bytes, ReadFrom expects 32 (EOF); not repaired because WriteTo feeds the ceremony hash (format change)", r"^C11 ser \S+ \S+ \S+ mpc0", r"^0:read", r"^1$", "ecc/*/kzg/mpcsetup.go WriteTo:62 / ReadFrom:90", "C11 ser bn254 4 1 mpc0"),
  K("C16", "C16 accumulator/merkletree no leaf/node domain separation", "accumulator VerifyProof accepts an internal node's preimage presented as a leaf with a shortened proof (leafSum=H(data), nodeSum=H(a||b) share a domain; number of trailing siblings unchecked); repair = RFC-6962 prefixes, which changes every root", r"^C16 acct \S+ \S+ \S+ \S+ collapse ", r"^1$", r"^0$", "accumulator/merkletree/tree.go leafSum/nodeSum, verify.go", "C16 acct sha256 3 2 39866116 collapse 1"),
- K("C16", "C16 vortex Merkle padding positions and proof length", "vortex MerkleProof.Verify has no notion of the leaf count or tree depth: padding positions n <= i < 2^depth open/verify with the zero leaf, and an internal node with a shortened proof verifies at index i>>k", r"^C16 vx \S+ \S+ \S+ \S+ (lift|none|idx) ", r"^ok 1$", r"^ok 0$", "field/koalabear/vortex/merkle.go Verify/Open", "C16 vx 2 0 d 30efac4e lift 0"),
+ K("C16", "C16 vortex Merkle padding positions and proof length", "vortex MerkleProof.Verify has no notion of the leaf count or tree depth: padding positions n <= i < 2^depth open/verify with the zero leaf, and an internal node with a shortened proof verifies at index i>>k", r"^C16 vx \S+ \S+ \S+ \S+ (lift|none|idxpad) ", r"^ok 1$", r"^ok 0$", "field/koalabear/vortex/merkle.go Verify/Open", "C16 vx 2 0 d 30efac4e lift 0"),
 ]
 
 FINDINGS += [
